@@ -327,7 +327,12 @@ CLAIMS = {
          "all-\\u encoder). Tied to the Rust by a differential "
          "run: ~29 000 trees (all operator pairs and triples exhaustively, random larger trees, trees with redundant parentheses) are printed "
          "by the model, rendered with canonical blanks / random trivia and comments / glued, parsed by the real parse_ast_file, and the dumped "
-         "ast::Expr must equal both the original tree (property oracle) and the model's parse (tie); ~390 literal spellings plus ~11 800 \\u-escape spellings over the whole code space (every plane, all surrogates, lone "
+         "ast::Expr must equal both the original tree (property oracle) and the model's parse (tie); likewise ~27 500 postfix-chain trees (22 forms of "
+         "primary expression x chains of length 1..3 over call / field / projection x prefix operators x 4 contexts, and prefix x every chain of "
+         "length 4 and 5), each also compared with its fully parenthesised spelling; ~3 000 of the printed texts are moreover read in 41 host "
+         "positions (every place of the grammar where an expression is read: let, statement, block tail, if / while / match parts, closure "
+         "bodies, array / tuple / struct-literal elements, arguments, parentheses, go, method and generic function bodies) and must be read "
+         "there exactly as in the `let` initialiser (model-free oracle host-position); ~390 literal spellings plus ~11 800 \\u-escape spellings over the whole code space (every plane, all surrogates, lone "
          "surrogates; in literals, patterns, multi-line strings; oracle computed in Python from the source text) (every integer "
          "suffix, floats, every escape, multi-line strings) are compiled by the whole pipeline and the EPrim reaching Core must be the denoted "
          "value (oracle) and equal the model's decoding (tie). "
